@@ -157,7 +157,7 @@ func isNonFiniteV(v model.V) bool {
 func init() {
 	register(&Property{
 		ID:   "C07",
-		Rule: "as C01 (gen.Stream x format x JSON options) with extended events over-weighted; oracle = independent decoders only (encoding/json, reference RFC 7049 and draft-12 decoders) plus the JSON output predicates (valid UTF-8, no raw control characters, no raw <>& under HTML escaping, radix point on request, non-finite floats refused or null); non-trivial as C01; distinct by case hash",
+		Rule: "as C01 (gen.Stream x format x JSON options) with extended events over-weighted, plus the same deterministic deep-nesting matrix (depths around every power of two up to 1024, siblings on both sides of the deep child); oracle = independent decoders only (encoding/json, reference RFC 7049 and draft-12 decoders) plus the JSON output predicates (valid UTF-8, no raw control characters, no raw <>& under HTML escaping, radix point on request, non-finite floats refused or null); non-trivial as C01; distinct by case hash",
 		New:  func() any { return &C01Case{} },
 		Draw: func(t *rapid.T) any {
 			c := &C01Case{Format: rapid.SampledFrom(formatNames).Draw(t, "format")}
@@ -168,5 +168,46 @@ func init() {
 			return c
 		},
 		Check: checkC07,
+		Enum:  enumDeepStreams,
 	})
+}
+
+// enumDeepStreams: nesting depths around every power of two up to 1024 (where a
+// fixed-size stack, a bit set or a counter of some width would run out), as pure
+// arrays, pure objects and alternating, every level with one sibling in front of
+// and two behind the deep child, with and without announced lengths.
+func enumDeepStreams(emit func(c any) bool) {
+	depths := []int{1, 2, 3, 7, 8, 9, 15, 16, 17, 31, 32, 33, 34, 63, 64, 65, 66, 67, 68, 100, 127, 128, 129, 130, 255, 256, 257, 258, 511, 512, 513, 1023, 1024, 1025}
+	for _, format := range formatNames {
+		for _, d := range depths {
+			for _, shape := range []string{"arr", "obj", "alt"} {
+				for _, announce := range []bool{false, true} {
+					var evs []model.Ev
+					isObj := func(i int) bool { return shape == "obj" || (shape == "alt" && i%2 == 1) }
+					for i := 0; i < d; i++ {
+						ann := -1
+						if announce {
+							ann = 4
+						}
+						if isObj(i) {
+							evs = append(evs, model.Ev{K: model.KObjStart, L: ann}, model.Ev{K: model.KKey, S: []byte("p")}, model.Ev{K: model.KBool, B: true}, model.Ev{K: model.KKey, S: []byte("k")})
+						} else {
+							evs = append(evs, model.Ev{K: model.KArrStart, L: ann}, model.Ev{K: model.KBool, B: true})
+						}
+					}
+					evs = append(evs, model.Ev{K: model.KInt, I: int64(d)})
+					for i := d - 1; i >= 0; i-- {
+						if isObj(i) {
+							evs = append(evs, model.Ev{K: model.KKey, S: []byte("q")}, model.Ev{K: model.KNil}, model.Ev{K: model.KKey, S: []byte("r")}, model.Ev{K: model.KInt, I: int64(i)}, model.Ev{K: model.KObjEnd})
+						} else {
+							evs = append(evs, model.Ev{K: model.KNil}, model.Ev{K: model.KInt, I: int64(i)}, model.Ev{K: model.KArrEnd})
+						}
+					}
+					if !emit(&C01Case{Format: format, Evs: evs}) {
+						return
+					}
+				}
+			}
+		}
+	}
 }
